@@ -151,6 +151,8 @@ def shards(tier):
             out.append({"kind": "prog", "first": [i], "L": 2})
         else:
             out.append({"kind": "prog", "first": [i], "L": L})
+    for i in range(len(al)):
+        out.append({"kind": "edited", "first": i})
     nmax = 4 if tier == "quick" else 5
     for n in range(2, nmax + 1):
         graphs = [g for g in spaces.all_graphs(n) if not spaces.has_isolated(n, g)]
@@ -159,8 +161,62 @@ def shards(tier):
     return out
 
 
+def edit_events(m):
+    """edits of an existing circuit (positions refer to wires of the model)."""
+    evs = [("rmid",), ("unwrap",)]
+    for i in sorted(m.ops):
+        l = m.ops[i]
+        t, r = qregs(l)[0]
+        idx = m.wires[(t, r)].index(i)
+        evs.append(("remove", t, r, idx))
+        if l[0] == "1":
+            for nm_ in ("X", "H", "I"):
+                if nm_ != l[1]:
+                    evs.append(("replace", t, r, idx, ["1", nm_, l[2], l[3]]))
+            evs.append(("replace", t, r, idx, ["W", ["H", "P"], l[2], l[3]]))
+        elif l[0] == "W":
+            evs.append(("replace", t, r, idx, ["1", "H", l[2], l[3]]))
+    for l in (["1", "X", "e", 0], ["1", "I", "p", 0], ["CNOT", "e", 0, "e", 1]):
+        qs = qregs(l)
+        if len(qs) == 1:
+            for idx in range(len(m.wires[qs[0]]) + 1):
+                evs.append(("insert", l, [[qs[0][0], qs[0][1], idx]]))
+    return evs
+
+
+def check_edited(acc, layout, program):
+    """metrics are queried, the circuit is edited in place, metrics are queried again (stale indexes / caches)."""
+    import graphiq.metrics as gm
+    from . import c12
+    m0 = model_of(layout, program)
+    for ev in edit_events(m0):
+        circ = gq.build_circuit(layout, program)
+        m = model_of(layout, program)
+        try:
+            for name in METRICS:
+                getattr(gm, name)().evaluate(None, circ)
+            circ.register_depth
+            circ.depth
+        except Exception:
+            pass
+        try:
+            c12.apply_event_real(circ, ev)
+        except Exception as e:
+            acc.refusal("edit raised " + type(e).__name__)
+            continue
+        c12.apply_event_model(m, ev)
+        check_circuit(acc, circ, m, {"layout": list(layout), "program": program, "queried_then_edited": [list(x) if isinstance(x, (list, tuple)) else x for x in ev]})
+        acc.nontriv(("edited", repr(program), repr(ev)))
+
+
 def run_shard(shard, tier, acc):
     al = alphabet()
+    if shard["kind"] == "edited":
+        f = al[shard["first"]]
+        for p in [[f]] + [[f, l] for l in al]:
+            check_edited(acc, LAYOUT, p)
+        acc.sample({"layout": list(LAYOUT), "program": [f], "then": "every single edit, metrics queried before and after"})
+        return
     if shard["kind"] == "prog":
         if shard["first"] is None:
             progs = [[]] + [[l] for l in al]
@@ -210,7 +266,9 @@ def check_solver_circuit(acc, circ, layout, case):
 
 
 def replay_case(case, acc):
-    if "program" in case:
+    if "queried_then_edited" in case:
+        check_edited(acc, tuple(case["layout"]), case["program"])
+    elif "program" in case:
         check_program(acc, tuple(case["layout"]), case["program"])
     else:
         score, circ, solver = su.run_trs(case["n"], [tuple(e) for e in case["edges"]])
